@@ -252,6 +252,7 @@ func init() {
 			{Name: "bytes", Run: c12Bytes},
 			{Name: "afteruse", Run: afterUse(c12Bytes)},
 			{Name: "srcviews", TShards: 2, Run: srcViewUnit(viewCallsC12)},
+			{Name: "bigdst", Run: bigDstUnit(bigDstC12)},
 			{Name: "casemasks", Run: caseMaskUnit("ACGTN", 48, 140, func(k *K, v []byte) {
 				checkRevComp(k, v, false)
 				if len(v) >= 3 {
